@@ -206,7 +206,26 @@ fn clean_join(base: &Path, text: &Path) -> PathBuf {
 }
 
 /// Observe the sandbox with std::fs only and render it in the REP format of memproj (paths relative to the sandbox root)
+static AS_NOBODY: std::sync::atomic::AtomicBool = std::sync::atomic::AtomicBool::new(false);
+
+/// the observer sees everything: with --as-nobody it looks as root and hands the effective ids back afterwards
 fn observe(root: &Path) -> Value {
+    let nobody = AS_NOBODY.load(std::sync::atomic::Ordering::SeqCst);
+    if nobody {
+        unsafe {
+            libc::seteuid(0);
+        }
+    }
+    let v = observe0(root);
+    if nobody {
+        unsafe {
+            libc::seteuid(65534);
+        }
+    }
+    v
+}
+
+fn observe0(root: &Path) -> Value {
     let mut ents: Vec<(String, Value)> = vec![];
     let mut files: Vec<(String, Value)> = vec![];
     let mut stack = vec![root.to_path_buf()];
@@ -289,6 +308,17 @@ fn strip_result(v: &mut Value, pre: &[String]) {
     }
     match v {
         Value::Object(m) => {
+            // an entry view of the sandbox root: its file name is the sandbox's, the in-memory root has none
+            if m.contains_key("path") && m.contains_key("name") {
+                let rooted = {
+                    let mut p = m["path"].clone();
+                    strip_result(&mut p, pre);
+                    p["p"].as_array().map(|a| a.is_empty()).unwrap_or(false) && p["abs"] == "t"
+                };
+                if rooted {
+                    m.insert("name".into(), json!([]));
+                }
+            }
             if m.contains_key("p") && m.contains_key("abs") {
                 if m["abs"] == "t" {
                     let ok = strip_comps(m.get_mut("p").unwrap().as_array_mut().unwrap(), pre);
@@ -397,11 +427,14 @@ fn main() {
     let _ = std::fs::remove_dir_all(&sandbox);
     std::fs::create_dir_all(&sandbox).unwrap();
     std::fs::set_permissions(&sandbox, std::fs::Permissions::from_mode(0o777)).unwrap();
+    // --as-nobody: the calls run with the EFFECTIVE ids of an unprivileged user (permission checks use them); the saved ids stay
+    // root so that the independent observer can look into directories the calls made unreadable (see `observe_priv`)
     if flag("as-nobody") {
         unsafe {
-            libc::setgid(65534);
-            libc::setuid(65534);
+            libc::setegid(65534);
+            libc::seteuid(65534);
         }
+        AS_NOBODY.store(true, std::sync::atomic::Ordering::SeqCst);
     }
     let root = std::fs::canonicalize(&sandbox).unwrap().join("t");
     let rootstr = root.to_str().unwrap().to_string();
@@ -570,6 +603,7 @@ fn main() {
         calls.push(call("remove", p, ""));
         calls.push(call("remove_all", p, ""));
         calls.push(call_m("chmod", p, 0o500, 0));
+        calls.push(call_m("chmod", p, 0o600, 0));      // takes the search bit off directories: an unprivileged caller must not lock itself out half way
         calls.push(call_b("chmod_b", p, "", 0, 0, "f:u+x,d:go-rx", "sR"));
         calls.push(call_b("chown_b", p, "", uid, gid, "", "oR"));
         for q in [
@@ -697,6 +731,11 @@ fn main() {
             }
             // copy with follow(true): only the documented use - the source itself is the link (DESIGN A24: where entries
             // reached through links BELOW a followed source are placed is an open question on both backends)
+            // Memfs enforces no permissions: an unprivileged caller that gives new directories a mode without its own search bit cannot
+            // go on inside them on the real filesystem - outside what the two backends can agree on
+            if AS_NOBODY.load(std::sync::atomic::Ordering::SeqCst) && c["op"] == "copy_b" && c["m"] == 0o600 && c["f"].as_array().map(|f| f.iter().any(|x| x == "d" || x == "a")).unwrap_or(false) {
+                continue;
+            }
             if c["op"] == "copy_b" && c["f"].as_array().map(|f| f.iter().any(|x| x == "F")).unwrap_or(false) {
                 match t.get(&a) {
                     // the link must not lie inside its own target (a followed cycle ends in LinkLooping with an order-dependent
